@@ -84,12 +84,17 @@ def removesingleton(f, rd, coordkeys=None):
         sdims = tuple([dk for dk in enumerate(v.dimensions)
                        if dk[1] not in outf.dimensions])[::-1]
         propd = dict([(pk, getattr(v, pk)) for pk in v.ncattrs()])
-        ov = outf.createVariable(vk, v.dtype.char, dims, **propd)
+        vtype = v.dtype.char
+        if v.dtype.kind in 'SU' and v.dtype.itemsize > 1:
+            # keep the width of fixed-width strings
+            vtype = v.dtype.str[1:]
+        ov = outf.createVariable(vk, vtype, dims, **propd)
         outvals = v[...]
         for di, dk in sdims:
             outvals = outvals.take(0, axis=di)
 
-        ov[...] = outvals[...]
+        # (a string variable reduced to a scalar is a bytes object)
+        ov[...] = np.asarray(outvals)
     return outf
 
 
